@@ -83,7 +83,7 @@ func genSuffixText(t *rapid.T, maxLen int) (text []byte, family string) {
 	if n > maxLen {
 		n = maxLen
 	}
-	fam := weighted(t, "family", 3, 2, 2, 2, 2, 3, 3, 3, 3, 3, 3, 4, 3, 9)
+	fam := weighted(t, "family", 3, 2, 2, 2, 2, 3, 3, 3, 3, 3, 3, 4, 3, 9, 4)
 	var out []byte
 	switch fam {
 	case 0:
@@ -289,6 +289,31 @@ func genSuffixText(t *rapid.T, maxLen int) (text []byte, family string) {
 		}
 		for i := 0; i < total; i++ {
 			out = append(out, w[(rot+i)%len(w)])
+		}
+	case 14:
+		// Long random strings over two or three letters: the groups of the
+		// rank sort are large and irregular enough to use up the depth limit
+		// of its quicksort, so that trHeapSort runs (a quarter of the binary
+		// strings of 2000 bytes; never below 250 bytes or with 4+ letters).
+		family = "long random binary or ternary"
+		k := rapid.SampledFrom([]int{2, 2, 2, 3}).Draw(t, "alpha")
+		if maxLen >= 2000 {
+			n = maxLen - rapid.IntRange(0, maxLen-2000).Draw(t, "lenLongBelowMax")
+		} else if maxLen >= 1000 {
+			n = maxLen
+		}
+		// The letters are a pure function of one drawn 64-bit value
+		// (splitmix64): rapid's own integer generators favour small values,
+		// which would make the string anything but uniform.
+		out = make([]byte, n)
+		x := rapid.Uint64().Draw(t, "seed")
+		for i := range out {
+			x += 0x9e3779b97f4a7c15
+			z := x
+			z = (z ^ (z >> 30)) * 0xbf58476d1ce4e5b9
+			z = (z ^ (z >> 27)) * 0x94d049bb133111eb
+			z ^= z >> 31
+			out[i] = byte((z >> 33) % uint64(k))
 		}
 	default:
 		family = "lz-copy"
